@@ -663,9 +663,9 @@ func c14LinesPoints(c *fw.Ctx, idx int) {
 
 func init() {
 	fw.Register(&fw.Monitor{
-		ID:    "C14",
-		Title: "centroids, ring direction and signed area match exact geometry",
-		Rule: "integer-grid inputs (extent <= 1e5 around offsets 0, +-1e3, +-1e6, +-1e9): simple rings (star-shaped by exact angle order; rectilinear staircases with flat tops and repeated vertices) in both directions from every start vertex -> IsRingCounterClockwise == (exact area > 0), SignedArea == exact (clockwise positive); polygons with 0..3 holes strictly inside and multipolygons of disjoint members -> area centroid vs exact rational centroid within ((4n+16)u(sum|a_i c_i| + 3|C|sum|a_i|))/(3|A2|) through PolygonsCentroid, MultiPolygonCentroid and Centroid; collinear (zero-area) polygons -> length-weighted centroid; polylines and point sets vs 400-bit / rational means. distinct_nontrivial = distinct (kind, size, direction/holes, layout) combinations",
+		ID:     "C14",
+		Title:  "centroids, ring direction and signed area match exact geometry",
+		Rule:   "integer-grid inputs (extent <= 1e5 around offsets 0, +-1e3, +-1e6, +-1e9): simple rings (star-shaped by exact angle order; rectilinear staircases with flat tops and repeated vertices) in both directions from every start vertex -> IsRingCounterClockwise == (exact area > 0), SignedArea == exact (clockwise positive); polygons with 0..3 holes strictly inside and multipolygons of disjoint members -> area centroid vs exact rational centroid within ((4n+16)u(sum|a_i c_i| + 3|C|sum|a_i|))/(3|A2|) through PolygonsCentroid, MultiPolygonCentroid and Centroid; collinear (zero-area) polygons -> length-weighted centroid; polylines and point sets vs 400-bit / rational means. distinct_nontrivial = distinct (kind, size, direction/holes, layout) combinations",
 		Assume: []string{"math/big exact; every difference and product the code forms on these grids is exact or rounded once, which is what the bound assumes"},
 		Classes: []fw.Class{
 			{Name: "rings", Quick: 30000, Thorough: 1500000, Run: c14Rings},
